@@ -230,7 +230,14 @@ func noteString(v Value) string {
 	case string:
 		return fmt.Sprintf("%q", x)
 	case *SymStr:
-		return "symstr"
+		b := make([]byte, 0, len(x.b))
+		for _, t := range x.b {
+			if !t.IsConst() {
+				return "symstr"
+			}
+			b = append(b, byte(t.val))
+		}
+		return fmt.Sprintf("%q", string(b))
 	case Slice:
 		b := make([]byte, 0, len(x))
 		for _, e := range x {
